@@ -233,8 +233,13 @@ class MPS(DNAS):
         :rtype: Dict[str, Dict[str, Any]]
         """
         seed_training = self.seed.training
+        # the conversion runs a forward pass of the seed in eval mode, which re-samples (one-hot) the
+        # coefficients stored in the theta_alpha buffers: put back the ones the search was using
+        thetas = [(m, m.theta_alpha) for m in self.seed.modules() if hasattr(m, 'theta_alpha')]
         mod, _, _ = convert(self.seed, self._input_example, 'export')
         self.seed.train(seed_training)
+        for m, t in thetas:
+            m.theta_alpha = t
         return mod
 
     def summary(self) -> Dict[str, Dict[str, Any]]:
